@@ -580,7 +580,14 @@ def _dbg(theorems, rule, extra_assumptions=()):
 
 PROPS["C09"] = dict(_dbg(
     ["Lace.C09.debug_transparent", "Lace.C09.iter_nonmut", "Lace.C09.detached_eq_plain",
-     "Lace.C09.nextAction_nonmut", "Lace.DbgProofs.runCommand_nonmut"],
+     "Lace.C09.nextAction_nonmut", "Lace.DbgProofs.runCommand_nonmut",
+     # shared standard input (Props/C09IO.lean, model Model/DebuggerIO.lean)
+     "Lace.C09IO.reader_consumes_exactly", "Lace.C09IO.fetch_consumes_exactly",
+     "Lace.C09IO.fetch_rest_suffix", "Lace.C09IO.quit_hands_over_stdin",
+     "Lace.C09IO.preparsed_agrees", "Lace.C09IO.preparsed_agrees_argument",
+     "Lace.C09IO.debug_transparent_io", "Lace.C09IO.transport_independent_io",
+     "Lace.C09IO.runLoop_sync", "Lace.C09IO.runCommand_frame", "Lace.C09IO.execute_setInp",
+     "Lace.C09IO.readFromLoop_tview"],
     "generated terminating programs (loops, nested JSR/RET and CALL/RETS subroutines, self-modifying stores, traps with "
     "input, all endings incl. exceptions) with random .break directives and labels × random scripts of non-mutating "
     "commands with arbitrary arguments (step, step into k incl. 0 and 65535, step out, continue, break add/remove at "
